@@ -561,3 +561,217 @@ def rule_fillnone(ctx) -> RuleResult:
                 if may_none:
                     res.report(f"{q}|fill-none|store", f.where(a), q, f"'{norm(a)[:60]}' can run with fill_value=None")
     return res
+
+
+# ---------------------------------------------------------------------------------------------
+# R-ALIGNED (C19): both API entry points refuse misaligned labels before any kernel or graph function runs.
+# groupby_reduce does it with _assert_by_is_aligned; its sibling groupby_scan must do the equivalent, otherwise a label array of the wrong
+# length reaches AlignedArrays / the kernels and fails with a bare AssertionError.
+_KERNEL_ENTRIES = {"chunk_scan", "dask_groupby_scan", "_reduce_blockwise", "dask_groupby_agg", "cubed_groupby_agg"}
+
+
+def rule_aligned(ctx) -> RuleResult:
+    res = RuleResult("R-ALIGNED", "every API entry point refuses misaligned labels before a kernel or graph function runs", min_instances=2)
+    from ..cfg import CFG, node_exprs
+    for q in ("core.groupby_reduce", "core.groupby_scan"):
+        f = ctx.prog.func(q)
+        arr = f.params[0]
+        cfg = CFG(f)
+        dom = cfg.dominators()
+        # validators: a call of _assert_by_is_aligned, or a test comparing a label shape with the array shape whose `if` raises ValueError
+        val_nodes = {}
+        for n in cfg.nodes:
+            for e in node_exprs(n):
+                for c in ast.walk(e):
+                    if isinstance(c, ast.Call) and norm(c.func) == "_assert_by_is_aligned":
+                        val_nodes[n.id] = "_assert_by_is_aligned(...)"
+        for st in walk_own(f.node):
+            if isinstance(st, ast.If) and any(isinstance(r, ast.Raise) and r.exc is not None and norm(r.exc.func if isinstance(r.exc, ast.Call) else r.exc) == "ValueError"
+                                              for b in st.body for r in ast.walk(b)):
+                t = norm(st.test)
+                if ".shape" in t and f"{arr}.shape" in t and any(isinstance(c, ast.Compare) for c in ast.walk(st.test)):
+                    for n in cfg.nodes:
+                        if n.kind == "test" and n.ast is not None and any(x is n.ast for x in ast.walk(st.test)):
+                            val_nodes[n.id] = t[:60]
+        sinks = []
+        for n in cfg.nodes:
+            for e in node_exprs(n):
+                for c in ast.walk(e):
+                    if isinstance(c, ast.Call) and norm(c.func) in _KERNEL_ENTRIES:
+                        sinks.append((n, c))
+        if not sinks:
+            raise AnalysisError(f"{q}: no call of a kernel / graph entry ({sorted(_KERNEL_ENTRIES)}) found (anchor)")
+        for n, c in sinks:
+            doms = [val_nodes[d] for d in dom.get(n.id, ()) if d in val_nodes]
+            res.inst(f"{q}: {norm(c.func)}(...) dominated by an alignment refusal: {doms[:1] or False}", f"{q}|{norm(c.func)}")
+            if not doms:
+                res.report(f"{q}|unaligned-labels-reach-kernel|{norm(c.func)}", f.where(c), q,
+                           f"'{norm(c.func)}(…)' is reached without a refusal of labels whose shape does not match the array (groupby_reduce uses "
+                           "_assert_by_is_aligned): a label array of another length fails deep inside with a bare AssertionError / IndexError")
+    return res
+
+
+# ---------------------------------------------------------------------------------------------
+# R-AUTOREFUSE (C19): the automatic plan is never one that the validation after it refuses while map-reduce is accepted.
+# groupby_reduce calls _choose_method and then refuses some (data condition, method) combinations.  A refusal that spares "map-reduce"
+# must be anticipated by _choose_method: on every path that returns a refusable method the data condition is known to be false.
+# (Contradiction form: only conditions that _choose_method itself tests somewhere are armed; others are listed as UNDECIDED.)
+_METHODS = {"map-reduce", "cohorts", "blockwise"}
+
+
+def _method_constraint(leaf: ast.AST, var: str):
+    """leaf over `var` -> set of refused method constants, or None"""
+    if isinstance(leaf, ast.Compare) and len(leaf.ops) == 1 and isinstance(leaf.left, ast.Name) and leaf.left.id == var:
+        op, r = leaf.ops[0], leaf.comparators[0]
+        if isinstance(op, ast.In) and isinstance(r, (ast.List, ast.Tuple, ast.Set)):
+            return {e.value for e in r.elts if isinstance(e, ast.Constant)}
+        if isinstance(op, ast.Eq) and isinstance(r, ast.Constant):
+            return {r.value}
+        if isinstance(op, ast.NotEq) and isinstance(r, ast.Constant):
+            return _METHODS - {r.value}
+    return None
+
+
+def rule_autorefuse(ctx) -> RuleResult:
+    res = RuleResult("R-AUTOREFUSE", "the automatically chosen plan is never refused where map-reduce is accepted", min_instances=2)
+    from ..cfg import CFG
+    from ..dataflow import forward, atom_of
+    gr = ctx.prog.func("core.groupby_reduce")
+    cm = ctx.prog.func("core._choose_method")
+    call = None
+    for n in walk_own(gr.node):
+        if isinstance(n, ast.Assign) and isinstance(n.value, ast.Call) and norm(n.value.func) == "_choose_method":
+            call = n
+    if call is None:
+        raise AnalysisError("groupby_reduce no longer calls _choose_method (anchor)")
+    mvar = call.targets[0].id if isinstance(call.targets[0], ast.Name) else "method"
+    rename = {norm(a): p for p, a in zip(cm.params, call.value.args)}
+    refusals = []
+    for st in walk_own(gr.node):
+        if isinstance(st, ast.If) and st.lineno > call.lineno and any(isinstance(r, ast.Raise) for b in st.body for r in ast.walk(b)):
+            leaves = st.test.values if isinstance(st.test, ast.BoolOp) and isinstance(st.test.op, ast.And) else [st.test]
+            S, data = None, []
+            for lf in leaves:
+                mc = _method_constraint(lf, mvar)
+                if mc is not None:
+                    S = mc if S is None else (S & mc)
+                else:
+                    data.append(lf)
+            if S is None or "map-reduce" in S:
+                continue          # refuses map-reduce too: consistent with the property
+            refusals.append((st, S, data))
+    if not refusals:
+        res.notes.append("no refusal after _choose_method spares map-reduce: nothing to anticipate")
+        res.min_instances = 0
+        return res
+    cfg = CFG(cm)
+
+    def translate(e: ast.AST) -> str:
+        t = norm(e)
+        for a, p in sorted(rename.items(), key=lambda kv: -len(kv[0])):
+            if a != p:
+                t = t.replace(a, p)
+        return t
+
+    tested_atoms = {atom_of(n.ast)[0] for n in cfg.nodes if n.kind == "test" and n.ast is not None}
+    # blueprints without a block decomposition (order statistics): 'agg.chunk == (None,)' and 'agg.chunk[0] is None' are the same predicate
+    # for blueprint tuples (R-BLOCKONLY); groupby_reduce refuses every method but blockwise for them, map-reduce included
+    order_stat_atoms = {"agg.chunk == (None,)", "agg.chunk[0] is None"}
+    for st, S, data in refusals:
+        atoms = [atom_of(ast.parse(translate(d), mode="eval").body) for d in data]
+        armed = [(a, pol) for a, pol in atoms if a in tested_atoms]
+        if not armed:
+            res.inst(f"refusal '{norm(st.test)[:70]}' (methods {sorted(S)}): its data condition is not tested in _choose_method [UNDECIDED]", f"ref|{st.lineno}")
+            res.notes.append(f"UNDECIDED: '{norm(st.test)[:80]}' -- _choose_method tests none of {[a for a, _ in atoms]}")
+            continue
+        names = {a for a, _ in armed}
+
+        # path-sensitive: a state is a set of fact-sets (one per path class), so that "A false, or A true and B false" survives joins
+        def transfer(n, stt):
+            return stt
+
+        def edge(n, lab, stt, names=names):
+            if n.kind == "test" and lab in ("T", "F") and n.ast is not None:
+                at, pol = atom_of(n.ast)
+                if at in names or at in order_stat_atoms or " == '" in at:
+                    truth = pol if lab == "T" else not pol
+                    out = set()
+                    for fs in stt:
+                        d = dict(fs)
+                        if at in d and d[at] != truth:
+                            continue            # infeasible
+                        d[at] = truth
+                        out.add(frozenset(d.items()))
+                    return frozenset(out) if out else None
+            return stt
+
+        ins, _ = forward(cfg, frozenset({frozenset()}), transfer, edge=edge, join=lambda x, y: x | y)
+        for n in cfg.nodes:
+            if n.kind != "return" or n.ast is None or n.ast.value is None:
+                continue
+            v = n.ast.value
+            if isinstance(v, ast.Name) and v.id == cm.params[0]:
+                continue            # the user's explicit method: refusing it is the refusal's job
+            unsafe_paths, risky_all = [], set()
+            for fs in ins.get(n.id, frozenset()):
+                facts = dict(fs)
+                if isinstance(v, ast.Constant):
+                    vals = {v.value}
+                elif isinstance(v, ast.Name):
+                    vals = {m for m in _METHODS if facts.get(f"{v.id} == '{m}'", None) is not False}
+                else:
+                    vals = set(_METHODS)
+                risky = vals & S
+                if not risky:
+                    continue
+                # paths on which map-reduce is refused as well (order statistics: only blockwise is implemented) are outside the clause
+                if any(facts.get(a) is True for a in order_stat_atoms):
+                    continue
+                if any((a in facts) and (facts[a] != pol) for a, pol in armed):
+                    continue
+                unsafe_paths.append(facts)
+                risky_all |= risky
+            res.inst(f"_choose_method: 'return {norm(v)}' vs refusal '{norm(st.test)[:50]}': unprotected path classes: {len(unsafe_paths)}",
+                     f"ret|{n.ast.lineno}|{st.lineno}")
+            if unsafe_paths:
+                res.report(f"core._choose_method|auto-plan-refused|{norm(v)}", cm.where(n.ast), cm.qualname,
+                           f"'return {norm(v)}' can hand {sorted(risky_all)} to groupby_reduce on a path on which "
+                           f"{' and '.join(a if pol else 'not (' + a + ')' for a, pol in armed)} may hold "
+                           f"(path facts: {sorted((k, val) for k, val in unsafe_paths[0].items())[:4]}); groupby_reduce then refuses it "
+                           f"('{norm(st.test)[:60]}') although method='map-reduce' is accepted for the same input")
+    return res
+
+
+# ---------------------------------------------------------------------------------------------
+# R-BLOCKLABELS (C16): the labels announced for a block are listed in the order in which the block's reduction yields them.
+# With method='blockwise' (no re-indexing) dask_groupby_agg computes the labels of every block eagerly and concatenates them; the values of
+# the block come from chunk_reduce, which orders its groups by `sort` (sorted, or first appearance).  The eager label list must follow the
+# same flag: a helper that always sorts pairs values with the wrong labels when sort=False and a block's labels are not ascending
+# (the missing-label code -1 sorts first but can appear anywhere).
+def rule_blocklabels(ctx) -> RuleResult:
+    res = RuleResult("R-BLOCKLABELS", "per-block label lists follow the same sort flag as the blocks' reductions", min_instances=1)
+    f = ctx.prog.func("core.dask_groupby_agg")
+    if "sort" not in f.params:
+        raise AnalysisError("dask_groupby_agg lost its sort parameter (anchor)")
+    from .codes import _local_closure
+    conc = [n for n in walk_own(f.node) if isinstance(n, ast.Call) and norm(n.func) in ("np.concatenate", "numpy.concatenate")
+            and n.args and isinstance(n.args[0], ast.Name) and "block" in n.args[0].id]
+    if not conc:
+        res.notes.append("blockwise labels are no longer a concatenation of per-block label lists: rule not applicable")
+        res.min_instances = 0
+        return res
+    for c in conc:
+        src = c.args[0].id
+        clo = _local_closure(f, c.args[0])
+        uses_sort = any("sort" in names_in(e) for e in clo)
+        always_sorted = any((isinstance(x, ast.Call) and norm(x.func) in ("_unique", "np.unique", "np.sort", "sorted"))
+                            or (isinstance(x, (ast.Name, ast.Attribute)) and norm(x) in ("_unique", "np.unique", "np.sort", "sorted"))
+                            for e in clo for x in ast.walk(e))
+        res.inst(f"dask_groupby_agg: per-block labels '{src}' = {norm(clo[1])[:60] if len(clo) > 1 else '?'}: depends on sort: {uses_sort}; uses a sorting helper: {always_sorted}",
+                 f"labels|{src}")
+        if always_sorted and not uses_sort:
+            res.report("core.dask_groupby_agg|block-labels-ignore-sort", f.where(c), f.qualname,
+                       f"the labels announced for each block ('{src}') are always sorted, but the block's values are ordered by chunk_reduce according to `sort`: "
+                       "with sort=False (first-appearance order) a block whose labels do not first appear in ascending order -- e.g. a missing label, coded -1, "
+                       "that is not the block's first element -- has its values paired with the wrong labels (method='blockwise')")
+    return res
